@@ -463,11 +463,21 @@ func c06Check(c *fw.Ctx, v util.Message, depth int) {
 		c.Violation(tn, "embed", "padding", fmt.Sprintf("after the last child: %d bytes %x (want zero padding to a multiple of 8; total %d)", len(rest), rest, len(enc)))
 	}
 	for _, s := range segs {
-		if s.msg != nil {
+		if s.msg != nil && !c06NoDescend {
 			c06Check(c, s.msg, depth+1)
 		}
 	}
 }
+
+// c06CheckTop applies the size and embedding assertions to one message without descending into its children.
+func c06CheckTop(c *fw.Ctx, v util.Message) {
+	saved := c06NoDescend
+	c06NoDescend = true
+	defer func() { c06NoDescend = saved }()
+	c06Check(c, v, 0)
+}
+
+var c06NoDescend bool
 
 func c06Eval(c *fw.Ctx, data any) {
 	cs := data.(*c06Case)
@@ -494,6 +504,21 @@ func c06Eval(c *fw.Ctx, data any) {
 		return
 	}
 	c06Check(c, v, 0)
+	if cs.Mode == "ctrl" {
+		// the same recipe in a top-down history: variable-size actions attached empty and grown afterwards. Only the
+		// top-level message is judged (its size and embedding are computed at encoding time); length fields that
+		// inner containers derived when the child was attached are builder discipline, not this property.
+		var lv util.Message
+		var late int
+		var lerr error
+		p, pv, st := fw.Recover(func() { lv, late, lerr = lib.BuildMessageLate(m) })
+		if p {
+			c.Violation(kindOf(m), "panic", "late-growth-build:"+fw.LibFrame(st), pv+"\n"+fw.TrimStack(st))
+		} else if lerr == nil && late > 0 {
+			c.Count("late_growth_histories", 1)
+			c06CheckTop(c, lv)
+		}
+	}
 	if c.WantSample() && n >= 2 && n <= 5 {
 		c.Sample(map[string]any{"mode": cs.Mode, "recipe": m, "type": typeName(v)})
 	}
